@@ -424,7 +424,7 @@ class Agent(dbus.service.Object):
                     self.__logger.debug('Current transfer state %s of %s', xfer.got_idx, xfer.got_end)
                     glib.timeout_add(RX_XFER_TIMEOUT_MS, self._rx_progress_cancel, key)
 
-                    if xfer.got_end:
+                    if xfer.got_end is not None:
                         # the full range is known at least
                         full_idx = apiIntInterval.closed(0, xfer.got_end)
 
